@@ -117,6 +117,11 @@ func (c *Ctx) Pick(q, t int) int {
 	return q
 }
 
+// PickDur returns q minutes in the quick tier and t minutes in the thorough tier.
+func (c *Ctx) PickDur(q, t int) time.Duration {
+	return time.Duration(c.Pick(q, t)) * time.Minute
+}
+
 func (c *Ctx) loadKnown() {
 	b, err := os.ReadFile(filepath.Join(VerifDir, "known_findings.json"))
 	if err != nil {
